@@ -30,7 +30,7 @@ ASSUMPTIONS = [
     "the walker ignores sign flags (only sign-agnostic operators are generated), so in-place changes of .sf are not judged here",
     "the 4 valuations are fixed functions of the register names",
 ]
-NMACH = {"quick": 60, "thorough": 1500}  # per shard
+NMACH = {"quick": 150, "thorough": 3000}  # per shard
 STEPS = {"quick": 30, "thorough": 50}
 NSHARDS = 16
 K = 4
